@@ -30,3 +30,24 @@ pub use prelude::*;
 
 #[cfg(any(test, feature = "test_utils"))]
 pub mod test_utils;
+
+/// Re-exports for out-of-tree verification harnesses (feature `verif`). Additive only.
+#[cfg(feature = "verif")]
+pub mod verif {
+    pub use crate::{
+        engine::block::{
+            buffer::{
+                Batch, BlobEntryIndex, BlobIndex, BlobIndexReader, BlobPart, Block as BatchBlock, Buffer,
+                BufferEntryInfo, SplitCtx, Splitter,
+            },
+            serde::EntryHeader,
+        },
+        io::{
+            PAGE,
+            bytes::{IoB, IoBuf, IoBufMut, IoSlice, IoSliceMut},
+            device::{Partition, PartitionId},
+            engine::IoEngineBuildContext,
+        },
+        serde::{Checksummer, EntryDeserializer, EntrySerializer, KvInfo},
+    };
+}
